@@ -23,6 +23,9 @@ Translation rules (the trusted part of this tie; what the generated text *means*
   open) -> one entry of `fs_mutations`, "<callee>:<mode>:<first argument's source text>"
   the same scan over cli/html_report.py -> `report_fs_mutations`; the literal default of `generate_report`'s `output_path` parameter ->
   `report_default_path`; the argument shape of each `generate_report(…)` call in main.py -> `report_calls`
+  every click.echo / click.secho / print / generate_report call after the per-file loop of `main` -> one entry of `report_section`:
+  (the `if` tests and loop headers it sits under, joined by `and`, `not (…)` for an else branch; the callee; its first argument's source text);
+  calls whose first argument is a plain constant (fixed wording, no data) are not listed
   comparisons `<x>.<attr> == "lit"` / `<x>.<attr> in ("a", "b")` / `<name> in ("a", "b")` / `"lit" in <name>` / `<x>.<attr>.startswith("lit")` inside
   `resolve_variable`, `process_nodes_recursive` and the per-file loop of `main` -> entries of `dispatch_tests`, in source order, as (function, subject, operator, literals)
   `re.search(LIT, …)` / `re.compile(LIT)` -> entries of `regex_literals`, in source order
@@ -312,6 +315,39 @@ def generate():
         return t
 
     attempt("report_fs_mutations", report_part)
+
+    def report_section():
+        """what `main` prints after the per-file loop, and under which conditions: every click.echo / click.secho / generate_report call
+        that follows the loop, with the chain of `if` tests (and loop headers) it sits under and the source text of its first argument"""
+        main = fns["main"]
+        idx = next(i for i, st in enumerate(main.body) if isinstance(st, ast.For) and getattr(st.iter, "id", None) == "files")
+        rows = []
+
+        def seg(n):
+            return " ".join((ast.get_source_segment(src, n) or "?").split())
+
+        def walk(stmts, guards):
+            for st in stmts:
+                if isinstance(st, ast.If):
+                    walk(st.body, guards + [seg(st.test)])
+                    walk(st.orelse, guards + ["not (%s)" % seg(st.test)])
+                elif isinstance(st, ast.For):
+                    walk(st.body, guards + ["for %s in %s" % (seg(st.target), seg(st.iter))])
+                elif isinstance(st, (ast.With, ast.Try, ast.While)):
+                    raise Unsupported("%s in the report section" % type(st).__name__)
+                else:
+                    for c in sorted((n for n in ast.walk(st) if isinstance(n, ast.Call)), key=lambda n: (n.lineno, n.col_offset)):
+                        nm = call_name(c.func)
+                        if nm in ("click.echo", "click.secho", "print", "generate_report"):
+                            if c.args and isinstance(c.args[0], ast.Constant):
+                                continue        # a fixed message carries no data: its wording is free
+                            rows.append((" and ".join(guards) or "always", nm, seg(c.args[0]) if c.args else ""))
+
+        walk(main.body[idx + 1:], [])
+        return "/-- what `main` prints after the per-file loop: (condition, call, first argument as written) -/\ndef report_section : List (String × String × String) :=\n  [%s]\n" % (
+            ",\n   ".join("(%s, %s, %s)" % (slit(a), slit(b), slit(c)) for a, b, c in rows))
+
+    attempt("report_section", report_section)
     def per_file_loop(main):
         loops = [s for s in ast.walk(main) if isinstance(s, ast.For) and isinstance(s.target, ast.Name) and getattr(s.iter, "id", None) == "files"]
         if len(loops) != 1:
